@@ -54,7 +54,7 @@ CHECKS["C03"] = dict(
 CHECKS["C05"] = dict(
    technique="TLA+ spec Jacobians.tla (so(3) closed forms in symbolic mu/nu proven by TLC to satisfy the dexp characterisation; se(3)/se_2(3) Jacobians characterised by J ad = Ad_exp - I and J k = k on ker ad with exact rational right-hand sides from screw-form elements; group-level quaternion kinematics as polynomial identities) model-checked by TLC; code Jacobians inserted into the exact equations; call histories (spec LieHistory.tla: which maker every group/operation sees first, order of operations and groups, equal-value makers) executed in fresh interpreters by harness/history.py",
    category="model_checking",
-   text="For so(3) the code's J_l, J_r and inverses are compared entry-wise with closed forms that TLC proves to be the unique solution of J[x]x = R - I, Jx = x (and J J^-1 = I, J_l = R J_r). For se(3) and se_2(3) no closed form is trusted: the code's matrices must satisfy J_l ad = Ad_exp - I, J_r ad = I - Ad_exp(-xi), J k = k on the kernel (consistency of the system proven by TLC), J J^-1 = I, J_l = Ad J_r, J_r(xi) = J_l(-xi), at angles from 5e-4 rad to 5.4 rad incl. both sides of the Taylor switch and beyond pi, and exactly zero (J = I +- ad/2). Group-level quaternion (body/world) and MRP Jacobians must give q' = 1/2 q(x)(0,w), R' = R[w]x resp. [w]x R (through casadi.jacobian of the code's own to_Matrix) and q.q' = 0, with the polynomial identities proven by TLC for all lattice quaternions.",
+   text="For so(3) the code's J_l, J_r and inverses are compared entry-wise with closed forms that TLC proves to be the unique solution of J[x]x = R - I, Jx = x (and J J^-1 = I, J_l = R J_r). For se(3) and se_2(3) no closed form is trusted: the code's matrices must satisfy J_l ad = Ad_exp - I, J_r ad = I - Ad_exp(-xi), J k = k on the kernel (consistency of the system proven by TLC), J J^-1 = I, J_l = Ad J_r, J_r(xi) = J_l(-xi), at angles from 5e-4 rad to 5.4 rad incl. both sides of the Taylor switch and beyond pi, and exactly zero (J = I +- ad/2). Group-level quaternion (body/world) and MRP Jacobians must give q' = 1/2 q(x)(0,w), R' = R[w]x resp. [w]x R (through casadi.jacobian of the code's own to_Matrix) and q.q' = 0, with the polynomial identities proven by TLC for all lattice quaternions. Rotation angles up to 2 pi - 0.02 and translational parts scaled by 4e-7 (the coupling blocks are linear in them) are included.",
    design_ref="6/C05",
    note="A matrix identity covers all perturbation directions by linearity, but only at lattice points x. Trusted: embedding doubles nu, mu (mpmath self-test).",
 )
@@ -69,14 +69,14 @@ CHECKS["C06"] = dict(
 CHECKS["C08"] = dict(
    technique="TLA+ spec Strapdown.tla (INS state as polynomial vectors in the symbolic scalar mu; closed-form flow S1, S2 proven by TLC to satisfy the ODE characterisation; semigroup law Tick;Tick = Tick2 proven as a polynomial identity; multi-step behaviours) model-checked by TLC; every step of every behaviour replayed into strapdown_ins_propagate",
    category="model_checking",
-   text="TLC explores behaviours of up to 3 consecutive propagation steps (same angular rate, changing specific force and gravity) from 4 initial states and 21 rotation-per-step elements (zero, 1e-3 rad, both sides of the small-angle switch, 90/120/180 degrees, beyond pi), proving on the spec that (S1,S2) solve S2[phi]x = S1 - I, S1[phi]x = R - I and that two unit steps equal one double step. For every visited step the real CasADi function must return the exact post-state (position, velocity as polynomials in mu evaluated by the harness, attitude as exact rotation, unit norm) for dt = T, under time rescaling dt = T/100, composed 0.3T + 0.7T on the code itself, and dt = 0 must be the identity.",
+   text="TLC explores behaviours of up to 3 consecutive propagation steps (same angular rate, changing specific force and gravity) from 4 initial states and 21 rotation-per-step elements (zero, 1e-3 rad, both sides of the small-angle switch, 90/120/180 degrees, beyond pi), proving on the spec that (S1,S2) solve S2[phi]x = S1 - I, S1[phi]x = R - I and that two unit steps equal one double step. For every visited step the real CasADi function must return the exact post-state (position, velocity as polynomials in mu evaluated by the harness, attitude as exact rotation, unit norm) for dt = T, under time rescaling dt = T/100, composed 0.3T + 0.7T on the code itself, and dt = 0 must be the identity. Long schedules (800 steps with the output fed back, piecewise-constant inputs, four step sizes) are compared with the exact flow of every segment and the quaternion norm is checked at every step.",
    design_ref="6/C08",
    note="Steps with different non-parallel angular rates are composed code-vs-code only. Trusted: embedding double mu (mpmath self-test).",
 )
 CHECKS["C10"] = dict(
    technique="TLA+ spec FilterNum.tla (exact rational RK4 oracles, LDL/UDU recursions, unique lower-triangular sqrt-covariance derivative, sqrt measurement update with Joseph form and PSD via exact pivots) model-checked by TLC; every state replayed into cyecca.util functions",
    category="model_checking",
-   text="TLC proves on every state (n <= 3, m <= 2, integer entries) the laws that pin each expectation: LDL^T = P, UDU^T = P with unit-triangular factors and positive pivots; W' lower triangular with W'W^T + WW'^T = FP + PF^T + Q; S = HPH^T + RsRs^T symmetric, KS = PH^T, P - P+ = KSK^T, Joseph form, P+ PSD, trace(P+) <= trace(P); RK4 exact on cubics in time, stability polynomial on y' = lambda y and a 2x2 linear system. Each state is replayed into rk4, sqrt_covariance_predict, sqrt_correct, ldl/udu and compared entry-wise where unique (1e-9) and through the defining identities otherwise; a harness-generated identity-residual family with exact integer right-hand sides extends this to n = 4..6 and the estimator's sparse shapes.",
+   text="TLC proves on every state (n <= 3, m <= 2, integer entries) the laws that pin each expectation: LDL^T = P, UDU^T = P with unit-triangular factors and positive pivots; W' lower triangular with W'W^T + WW'^T = FP + PF^T + Q; S = HPH^T + RsRs^T symmetric, KS = PH^T, P - P+ = KSK^T, Joseph form, P+ PSD, trace(P+) <= trace(P); RK4 exact on cubics in time, stability polynomial on y' = lambda y and a 2x2 linear system. Each state is replayed into rk4, sqrt_covariance_predict, sqrt_correct, ldl/udu and compared entry-wise where unique (1e-9) and through the defining identities otherwise; a harness-generated identity-residual family with exact integer right-hand sides extends this to n = 4..6 and the estimator's sparse shapes. Scale disparity (measurement 1e-5 .. 1e-9 of the prior) is checked in exact rational arithmetic relative to the size of each result.",
    design_ref="6/C10",
    note="n > 3 only through identity residuals; RK4 exactness decided on fields where every order-4 four-stage method is exact plus an order test on one nonlinear field. Not decided: values between lattice points.",
 )
@@ -121,7 +121,7 @@ CHECKS["C14"] = dict(
 CHECKS["C09"] = dict(
    technique="TLA+ spec Codegen.tla (configuration model: equation set x generator option assignment, pairwise-covering/exhaustive option lattices proven covering by TLC, artefact inventory contract, per-function input-pattern designs) model-checked by TLC; every state drives the repository's own generate_code, the emitted C is parsed, compiled with gcc and compared with the symbolic CasADi function (differential)",
    category="translation_validation",
-   text="The clauses quantified over configurations are decided with the spec: TLC enumerates every (equation set, option assignment) - all 2^n assignments in thorough, a TLC-proven pairwise-covering array plus all single toggles and the default/implicit-default rows in quick - with the expected artefact inventory; the real generator must succeed on every row and emit exactly the shipped functions once each, with the symbolic function's arity, argument names and sparsity; 'bundle' states call the generic entry point once with several shipped sets (both relative orders of every pair) and require file <key>.c to hold exactly <key>'s functions (invariant BundleOK). The value clause is a differential test driven by TLC-enumerated input designs (branch-selecting patterns incl. the Alloc tie/saturation cells): 35 compiled C functions vs the symbolic functions, <= 4 ulp and identical NaN pattern, with measured branch coverage (>= 75% of comparison nodes driven both ways).",
+   text="The clauses quantified over configurations are decided with the spec: TLC enumerates every (equation set, option assignment) - all 2^n assignments in thorough, a TLC-proven pairwise-covering array plus all single toggles and the default/implicit-default rows in quick - with the expected artefact inventory; the real generator must succeed on every row and emit exactly the shipped functions once each, with the symbolic function's arity, argument names and sparsity; 'bundle' states call the generic entry point once with several shipped sets (both relative orders of every pair) and require file <key>.c to hold exactly <key>'s functions (invariant BundleOK). The value clause is a differential test driven by TLC-enumerated input designs (branch-selecting patterns incl. the Alloc tie/saturation cells): 35 compiled C functions vs the symbolic functions, <= 4 ulp and identical NaN pattern, with measured branch coverage (>= 75% of comparison nodes driven both ways). Call histories of every generator: default / every toggle / default in one process, and (fresh interpreter each) a first call with one option toggled followed by a default call, compared with a process that made only the default call; the shipped entry points run into one directory in every order.",
    design_ref="6/C09, 12",
    note="The spec is a configuration model, not a semantic one: equality of C and symbolic code for ALL inputs and structural matching of the C text are not decided (differential on the enumerated inputs only). Export lists and option keys are extracted from the repository at run time. Built by a sub-task.",
    engine="tlc+codegen-differential",
